@@ -376,6 +376,21 @@ func (s *side) concrete(c fsx.Call) fsx.Call {
 type result struct {
 	fsx.Res
 	Fam string
+	// portable class of the error (errClass), the class its errno has on the OS
+	// the value stands for and whether there is such an errno (wantClass)
+	Class, Want string
+	HasWant     bool
+}
+
+// errResult classifies the error of a call that returned.
+func errResult(val string, err error) result {
+	r := result{Res: fsx.Res{Kind: fsx.ErrKind(err), Val: val}, Fam: family(err), Class: errClass(err)}
+	if err != nil {
+		r.Msg = err.Error()
+		r.Want, r.HasWant = wantClass(err)
+	}
+
+	return r
 }
 
 // do executes the portable call with a harness-owned, per-call deterministic
@@ -431,9 +446,12 @@ func (s *side) doConcrete(cc fsx.Call) (fsx.Call, result) {
 		return cc, result{Res: fsx.Res{Kind: k, Msg: msg}, Fam: k}
 	}
 
-	r := result{Res: fsx.Res{Kind: fsx.ErrKind(err), Val: val}, Fam: family(err)}
-	if err != nil {
-		r.Msg = err.Error()
+	r := errResult(val, err)
+
+	// a helper's own error (IsEmpty: fmt.Errorf("%q path does not exist")) is not
+	// a value of either OS: one kind whatever the path in its text
+	if classHelperOps[cc.Op] && strings.HasPrefix(r.Kind, "other:") {
+		r.Kind, r.Fam = "helper-error", famCustom
 	}
 
 	return cc, r
@@ -556,6 +574,21 @@ func (s *side) rawCall(c fsx.Call) (val string, err error) {
 		})
 
 		return strings.Join(out, ","), err
+	case "Exists", "DirExists", "IsDir", "IsEmpty":
+		var b bool
+
+		switch c.Op {
+		case "Exists":
+			b, err = avfs.Exists(v, c.A)
+		case "DirExists":
+			b, err = avfs.DirExists(v, c.A)
+		case "IsDir":
+			b, err = avfs.IsDir(v, c.A)
+		default:
+			b, err = avfs.IsEmpty(v, c.A)
+		}
+
+		return fmt.Sprint(b), err
 	case "Rename":
 		return "", v.Rename(c.A, c.B)
 	case "Link":
